@@ -212,7 +212,7 @@ class Walker:
                 if not in_lambda and k != 'ClassTemplateDecl':
                     cls = n['name']
         elif k in FUNC_KINDS and not in_lambda:
-            nm = n.get('name', '?')
+            nm = re.sub(r'<.*>$', '', n.get('name', '?'))
             if not (nm == 'operator()' and cls is None and fn is not None):
                 owner = self.recs.get(n.get('parentDeclContextId')) or cls
                 fn = (owner + '::' + nm) if owner else nm
@@ -248,19 +248,34 @@ class Walker:
         op, mem, sure = info
         if not sure and not orders:
             return
-        rec = {'file': r, 'line': l, 'off': b, 'fn': fn or '?', 'member': mem, 'op': op, 'orders': orders, 'resolved': n['kind'] == 'CXXMemberCallExpr' or sure}
+        prio = 0 if op == 'call' else (2 if sure else 1)       # instantiated (resolved) bodies win over dependent template patterns
+        rec = {'file': r, 'line': l, 'off': b, 'fn': fn or '?', 'member': mem, 'op': op, 'orders': orders, 'resolved': prio}
         old = self.sites.get((r, b, e))
-        if old is None or (not old['resolved'] and rec['resolved']) or (old['fn'] == '?' and rec['fn'] != '?'):
+        if old is None or old['resolved'] < prio or (old['resolved'] == prio and old['fn'] == '?' and rec['fn'] != '?'):
             self.sites[(r, b, e)] = rec
 
 
 def run_tu(name):
-    """-> (sites dict, refs dict, regex counts, error or None) for one translation unit"""
+    """-> (sites dict, refs dict, regex counts, error or None) for one translation unit.
+    The result is a pure function of the PREPROCESSED text of the TU (all included headers, after #if) and of this script:
+    it is cached under that hash, so an unchanged source costs one `clang -E` per TU."""
     os.makedirs(WORK, exist_ok=True)
     src = os.path.join(WORK, 'tu_%s_%d.cpp' % (name, os.getpid()))
     with open(src, 'w') as f:
         f.write(TUS[name])
     try:
+        e = subprocess.run([CLANG] + FLAGS + ['-E', src], stdout=subprocess.PIPE, stderr=subprocess.PIPE, universal_newlines=True, timeout=120)
+        if e.returncode != 0:
+            return {}, {}, {}, 'clang -E failed on TU %s: %s' % (name, e.stderr[-1500:])
+        pre = e.stdout.replace(src, '<tu>')
+        hh = hashlib.sha1((pre + open(os.path.abspath(__file__)).read() + REPO).encode()).hexdigest()[:16]
+        cache = os.path.join(WORK, 'cache_%s_%s.json' % (name, hh))
+        if os.path.exists(cache):
+            try:
+                c = json.load(open(cache))
+                return c['sites'], c['refs'], c['rc'], None
+            except Exception:
+                pass
         r = subprocess.run([CLANG] + FLAGS + ['-fsyntax-only', '-Xclang', '-ast-dump=json', '-Xclang', '-ast-dump-filter=dispenso', src],
                            stdout=subprocess.PIPE, stderr=subprocess.PIPE, universal_newlines=True, timeout=300)
         if r.returncode != 0:
@@ -269,10 +284,13 @@ def run_tu(name):
         for doc in iter_docs(r.stdout):
             annotate_locs(doc, [None, None])
             w.walk(doc, None, None, False)
-        e = subprocess.run([CLANG] + FLAGS + ['-E', src], stdout=subprocess.PIPE, stderr=subprocess.PIPE, universal_newlines=True, timeout=120)
-        if e.returncode != 0:
-            return {}, {}, {}, 'clang -E failed on TU %s: %s' % (name, e.stderr[-1500:])
-        return ({'%s|%d|%d' % k: v for k, v in w.sites.items()}, {'%s|%d' % k: v for k, v in w.refs.items()}, regex_count(e.stdout), None)
+        res = ({'%s|%d|%d' % k: v for k, v in w.sites.items()}, {'%s|%d' % k: v for k, v in w.refs.items()}, regex_count(e.stdout))
+        for oldc in [x for x in os.listdir(WORK) if x.startswith('cache_%s_' % name)]:
+            os.unlink(os.path.join(WORK, oldc))
+        tmp = cache + '.tmp%d' % os.getpid()
+        json.dump({'sites': res[0], 'refs': res[1], 'rc': res[2]}, open(tmp, 'w'))
+        os.replace(tmp, cache)
+        return res + (None,)
     finally:
         if os.path.exists(src):
             os.unlink(src)
@@ -313,7 +331,7 @@ def extract():
                 continue
             for k, v in s.items():
                 old = sites.get(k)
-                if old is None or (not old['resolved'] and v['resolved']):
+                if old is None or old['resolved'] < v['resolved']:
                     sites[k] = v
             refs.update(r)
             for f, v in rc['toks'].items():
